@@ -348,7 +348,6 @@ func VerifC15_Recursive() {
 	}
 	s := mk()
 	twin := nondetBool("twin")
-	verifReach("C15/recursive/built")
 	verifKnown("C15/recursive-compat-no-cycle-guard", true)
 	var err error
 	if twin {
